@@ -843,6 +843,17 @@ do_case (kase const &k)
     return run_tree (k);
   if (k.mode == "hist")
     return run_hist (k);
+  if (k.mode == "voc")
+    {
+      std::string r = "{\"words\":[";
+      bool first = true;
+      for (auto const &b: g_voc->m_voc->get_builtins ())
+	{
+	  r += std::string (first ? "" : ",") + jstr (b.first);
+	  first = false;
+	}
+      return r + "]}";
+    }
   if (k.mode == "nosimp")
     return run_internal (k, false);
   if (k.mode == "internal")
